@@ -114,6 +114,49 @@ impl<'a> Model<'a> {
     }
 }
 
+/// Reference rendering of `underline_span_with_text(st..en, msg, '^')`: for every line the span
+/// touches, "<line number>| <line text>" and, below it, the underline: indented by the width of the
+/// label plus the display width of the text before the underlined part, one '^' per display column of
+/// the part of the span on that line (at least one); the message follows the last underline. One
+/// rendering per accepted reading of "the lines of the span" (see `span_lines`).
+fn model_underline(m: &Model, st: usize, en: usize, msg: &str) -> Vec<String> {
+    use unicode_width::UnicodeWidthStr;
+    let s = m.s;
+    let (start, ends) = m.span_lines(st, en);
+    let mut outs = vec![];
+    for e in ends {
+        // physical lines of s[start..e]: split at LF, a CR directly before the LF belongs to the terminator
+        let region = &s[start..e];
+        let mut pieces: Vec<(usize, &str)> = vec![];
+        let mut ls = start;
+        for part in region.split_inclusive('\n') {
+            let body = part.strip_suffix('\n').map(|b| b.strip_suffix('\r').unwrap_or(b)).unwrap_or(part);
+            pieces.push((ls, body));
+            ls += part.len();
+        }
+        let mut o = String::new();
+        let n = pieces.len();
+        for (k, (ls, text)) in pieces.iter().enumerate() {
+            let cur = if k == 0 { st } else { (*ls).min(en) };
+            let off = cur - ls;
+            let ul_end = en.min(cur + text.len().saturating_sub(off));
+            let line_num = m.line(cur);
+            o.push_str(&format!("{line_num}| {text}\n"));
+            let indent = UnicodeWidthStr::width(&s[*ls..cur]) + line_num.to_string().len() + 2;
+            let under = UnicodeWidthStr::width(&s[cur..ul_end.max(cur)]).max(1);
+            o.push_str(&" ".repeat(indent));
+            o.push_str(&"^".repeat(under));
+            if k + 1 == n {
+                o.push_str(&format!(" {msg}"));
+            } else {
+                o.push('\n');
+            }
+        }
+        outs.push(o);
+    }
+    outs
+}
+
 fn boundaries(s: &str) -> Vec<usize> {
     let mut v: Vec<usize> = s.char_indices().map(|(i, _)| i).collect();
     v.push(s.len());
@@ -235,6 +278,12 @@ fn check_text(s: &str, all_chunkings: bool, rng: &mut Rng, out: &mut CaseOut) {
                     if !exp_ens.iter().any(|e| txt == s[exp_st..*e]) {
                         out.violate("span-lines-wrong", &tags, format!("span_lines_str({st}..{en}) = {txt:?}, expected one of {:?}", exp_ens.iter().map(|e| &s[exp_st..*e]).collect::<Vec<_>>()), json!({"text": s, "span": [st, en], "api": "NonStreamingLexer"}));
                     }
+                    // a position is a function of the offset alone: the end of st..en and the start of en..en agree
+                    if let Ok(((l3, c3), _)) = guarded(|| lexer.line_col(Span::new(en, en))) {
+                        if (l2, c2) != (l3, c3) {
+                            out.violate("column-mismatch", &["same_offset_two_answers"], format!("line_col({st}..{en}) ends at ({l2},{c2}) but line_col({en}..{en}) starts at ({l3},{c3})"), json!({"text": s, "span": [st, en], "api": "NonStreamingLexer"}));
+                        }
+                    }
                     if l1 != m.line(st) || !m.cols(st).contains(&c1) || l2 != m.line(en) || !m.cols(en).contains(&c2) {
                         out.violate("column-mismatch", &[], format!("line_col({st}..{en}) = (({l1},{c1}),({l2},{c2})), expected (({},{:?}),({},{:?}))", m.line(st), m.cols(st), m.line(en), m.cols(en)), json!({"text": s, "span": [st, en], "api": "NonStreamingLexer"}));
                     }
@@ -254,13 +303,38 @@ fn check_text(s: &str, all_chunkings: bool, rng: &mut Rng, out: &mut CaseOut) {
                     }
                 }
             }
-            if i % 3 == 0 {
-                for &en in bs[i..].iter().take(6) {
-                    if let Err(p) = guarded(|| fmt.underline_span_with_text(Span::new(st, en), "msg".to_string(), '^')) {
-                        out.violate("panic", &["diagnostics"], format!("underline_span_with_text({st}..{en}) panicked: {p}"), json!({"text": s, "span": [st, en]}));
-                    }
-                    out.count("diagnostics_underlines_rendered", 1);
+            // underline rendering: every span of the short exhaustive texts; for longer texts the spans
+            // starting at every third offset that cover up to five characters, plus a few long ones
+            let mut ens: Vec<usize> = if all_chunkings {
+                bs[i..].to_vec()
+            } else if i % 3 == 0 {
+                bs[i..].iter().take(6).cloned().collect()
+            } else {
+                vec![]
+            };
+            if !all_chunkings && i % 5 == 0 {
+                for _ in 0..3 {
+                    ens.push(bs[i + rng.below(bs.len() - i)]);
                 }
+            }
+            for en in ens {
+                match guarded(|| fmt.underline_span_with_text(Span::new(st, en), "msg".to_string(), '^')) {
+                    Err(p) => out.violate("panic", &["diagnostics"], format!("underline_span_with_text({st}..{en}) panicked: {p}"), json!({"text": s, "span": [st, en]})),
+                    Ok(txt) => {
+                        out.evals += 1;
+                        let want = model_underline(&m, st, en, "msg");
+                        if m.line(st) != m.line(en) {
+                            out.count("diagnostics_multi_line_underlines", 1);
+                            if m.line(st).to_string().len() != m.line(en).to_string().len() {
+                                out.count("diagnostics_underlines_across_a_digit_boundary", 1);
+                            }
+                        }
+                        if !want.contains(&txt) {
+                            out.violate("underline-mismatch", &["diagnostics"], format!("underline_span_with_text({st}..{en}) rendered {txt:?}, expected {:?}", want), json!({"text": s, "span": [st, en]}));
+                        }
+                    }
+                }
+                out.count("diagnostics_underlines_rendered", 1);
             }
         }
         // error pretty-printing of a lexing error placed at `st`
@@ -282,6 +356,24 @@ fn check_text(s: &str, all_chunkings: bool, rng: &mut Rng, out: &mut CaseOut) {
     }
 }
 
+/// Many short lines (12-20, or just over 100), so that multi-line spans cross the 9/10 and 99/100
+/// line-number boundaries.
+fn many_lines_text(rng: &mut Rng) -> String {
+    let n = if rng.chance(1, 5) { rng.range(99, 108) } else { rng.range(9, 20) };
+    let mut s = String::new();
+    let pool = ["a", "bc", "é", " ", "x", "日", ""];
+    for _ in 0..n {
+        for _ in 0..rng.below(4) {
+            s.push_str(pool[rng.below(pool.len())]);
+        }
+        s.push_str(if rng.chance(1, 5) { "\r\n" } else { "\n" });
+    }
+    if rng.chance(1, 2) {
+        s.push_str("end");
+    }
+    s
+}
+
 fn random_text(rng: &mut Rng) -> String {
     let n = rng.range(5, 60);
     let mut s = String::new();
@@ -301,11 +393,13 @@ impl Check for C19 {
         n_exh_cases(tier) + n_rand_cases(tier)
     }
     fn rule(&self) -> &'static str {
-        "exhaustive: every string of length <= L over {a, é, ♠, LF, CR, space} (L=4 quick, 6 thorough) x every chunking into <= 3 feeds x every char-boundary offset x every char-boundary span, through NewlineCache, NonStreamingLexer::{line_col,span_lines_str} LexParseError::pp and lrpar::diagnostics::SpannedDiagnosticFormatter::{file_location_msg at every offset, underline_span_with_text over sampled spans}; plus random longer texts (5-60 pieces incl. CRLF, 4-byte, double-width, zero-width and combining chars) with random chunkings. Non-trivial = text contains at least one LF; distinct by text."
+        "exhaustive: every string of length <= L over {a, é, ♠, LF, CR, space} (L=4 quick, 6 thorough) x every chunking into <= 3 feeds x every char-boundary offset x every char-boundary span, through NewlineCache, NonStreamingLexer::{line_col,span_lines_str} LexParseError::pp and lrpar::diagnostics::SpannedDiagnosticFormatter::{file_location_msg at every offset, underline_span_with_text against a reference rendering: all spans of the exhaustive texts, sampled spans of the longer ones}; plus random longer texts (5-60 pieces incl. CRLF, 4-byte, double-width, zero-width and combining chars; every third one has 9-20 or ~100 short lines so that spans cross the 9/10 and 99/100 line-number boundaries) with random chunkings. Non-trivial = text contains at least one LF; distinct by text."
     }
     fn assumptions(&self) -> Vec<&'static str> {
         vec![
             "column of the LF in a CR LF pair: both 'same as the CR' and 'one more' are accepted",
+            "line_col of a span must end where line_col of the empty span at the same offset starts",
+            "underline rendering: display widths come from the unicode-width crate (the same one the formatter uses); the layout is the harness's own model",
             "lines-of-span end: both 'end of the line holding the last byte' and 'end of the line holding offset span.end()' are accepted (the repo's tests pin the second)",
         ]
     }
@@ -313,7 +407,7 @@ impl Check for C19 {
         tier.sz(500, 20000)
     }
     fn required_counters(&self, _tier: Tier) -> Vec<&'static str> {
-        vec!["spans_ending_at_line_start", "spans_ending_at_text_end", "empty_spans", "multi_line_spans", "crlf_columns", "pp_checked", "diagnostics_locations_checked"]
+        vec!["spans_ending_at_line_start", "spans_ending_at_text_end", "empty_spans", "multi_line_spans", "crlf_columns", "pp_checked", "diagnostics_locations_checked", "diagnostics_multi_line_underlines", "diagnostics_underlines_across_a_digit_boundary"]
     }
     fn extra_coverage(&self, tier: Tier, c: &BTreeMap<String, u64>) -> Map<String, Value> {
         let mut m = Map::new();
@@ -345,7 +439,7 @@ impl Check for C19 {
         } else {
             let k = tier.sz(12, 60);
             for j in 0..k {
-                let s = random_text(&mut rng);
+                let s = if j % 3 == 2 { many_lines_text(&mut rng) } else { random_text(&mut rng) };
                 check_text(&s, false, &mut rng, &mut out);
                 out.count("random_texts", 1);
                 if j == 0 {
